@@ -22,6 +22,39 @@ fn target(i: &Instruction, addr: u32) -> Option<i64>
 	}
 }
 
+/// The PC-relative offset the ARMv6-M manual assigns to a bit pattern, computed here from the raw halfwords and
+/// independently of the crate's decoder (A6.7.10 B T1/T2, A6.7.13 BL, A6.7.3 ADR, A6.7.27 LDR literal).
+fn arch_offset(b: &[u8]) -> Option<i64>
+{
+	let h0 = u16::from_le_bytes([b[0], b[1]]) as i64;
+	let sext = |v: i64, bits: u32| -> i64 {if v >> (bits - 1) & 1 == 1 {v - (1i64 << bits)} else {v}};
+	if h0 >> 12 == 0b1101 && (h0 >> 8 & 0xF) < 0b1110 {return Some(sext((h0 & 0xFF) << 1, 9));}
+	if h0 >> 11 == 0b11100 {return Some(sext((h0 & 0x7FF) << 1, 12));}
+	if h0 >> 11 == 0b10100 || h0 >> 11 == 0b01001 {return Some((h0 & 0xFF) * 4);}
+	if h0 >> 11 == 0b11110 && b.len() >= 4
+	{
+		let h1 = u16::from_le_bytes([b[2], b[3]]) as i64;
+		if h1 >> 14 == 0b11 && h1 >> 12 & 1 == 1
+		{
+			let (s, j1, j2) = (h0 >> 10 & 1, h1 >> 13 & 1, h1 >> 11 & 1);
+			let (i1, i2) = (1 - (j1 ^ s), 1 - (j2 ^ s));
+			return Some(sext(s << 24 | i1 << 23 | i2 << 22 | (h0 & 0x3FF) << 12 | (h1 & 0x7FF) << 1, 25));
+		}
+	}
+	None
+}
+
+/// the decoded instruction's offset is the architectural one of the pattern it was decoded from
+fn arch_check(cx: &mut Cx, b: &[u8], i: &Instruction)
+{
+	let dec = target(i, 0).map(|t| t - 4);
+	let arch = arch_offset(b);
+	if dec != arch
+	{
+		cx.report.oracle_fail(format!("raw {} @{}", hex(b), 0x2000_0000u32), format!("pattern {} has architectural PC-relative offset {arch:?}, the decoder gives {dec:?} ({})", hex(b), ser_instr(i)));
+	}
+}
+
 /// the `l_XXXXXXXX` labels a text mentions
 fn labels(text: &str) -> Vec<(String, u32)>
 {
@@ -331,12 +364,27 @@ pub fn run(cx: &mut Cx)
 {0x20000000, 0x20000002, 4, 2, 0xFFFFFFF0, 0xFFFFFFF2, 0xFFFFFFFC, 0xFFFFFFFE} (all eight for PC-relative 16-bit instructions, rotating otherwise): \
 text = format!(\"{}\", instr.at(addr)); every l_XXXXXXXX it mentions is defined by `.const` before the statement (1/4: after = deferred); \
 `.addr A; <text>` is assembled with the real Context; oracle: no diagnostic and the output is exactly instr.encode() at A, and the label \
-names the architectural target; targets outside the address space are skipped and counted. Model: Show.text byte for byte, \
+names the architectural target (the offset is recomputed from the raw halfwords by the manual's formulas, independently of the crate's decoder); targets outside the address space are skipped and counted. Model: Show.text byte for byte, \
 Show.render(Show.parts) = text, Front.build(Show.parts) = the instruction; a sample also through the staged Front.assemble prediction. \
 non-trivial = assembled case; distinct = distinct (text, address)".to_owned();
 
 	if let Some(input) = cx.replay.clone()
 	{
+		if let Some(rest) = input.strip_prefix("raw ")
+		{
+			let (h, a) = rest.split_once(" @").unwrap_or((rest, "536870912"));
+			let b = unhex(h).unwrap_or_default();
+			match guarded(|| Instruction::decode(&b))
+			{
+				Ok(Ok((_, i))) =>
+				{
+					arch_check(cx, &b, &i);
+					run_batch(cx, &[Case{instr: i, addr: a.parse().unwrap_or(0x2000_0000), after: false, staged: false}], dirs);
+				},
+				_ => cx.report.oracle_fail(input, "pattern does not decode"),
+			}
+			return;
+		}
 		match parse_input(&input)
 		{
 			Some(c) => run_batch(cx, &[c], dirs),
@@ -354,7 +402,7 @@ non-trivial = assembled case; distinct = distinct (text, address)".to_owned();
 		let b = (h as u16).to_le_bytes();
 		match guarded(|| Instruction::decode(&b))
 		{
-			Ok(Ok((2, i))) => push_cases(&mut cases, i, &mut cx.rng, &mut n16, true),
+			Ok(Ok((2, i))) => {arch_check(cx, &b, &i); push_cases(&mut cases, i, &mut cx.rng, &mut n16, true)},
 			Ok(_) => (),
 			Err(p) => cx.report.oracle_fail(format!("decode {h:04x}"), format!("decoder panicked: {p}")),
 		}
@@ -380,7 +428,7 @@ non-trivial = assembled case; distinct = distinct (text, address)".to_owned();
 					let h1 = 0xD000 | ((sjj >> 1) & 1) << 13 | (sjj & 1) << 11 | imm11;
 					let b = [h0.to_le_bytes(), h1.to_le_bytes()].concat();
 					tried += 1;
-					if let Ok(Ok((4, i))) = guarded(|| Instruction::decode(&b)) {push_cases(&mut cases, i, &mut cx.rng, &mut n32, false);}
+					if let Ok(Ok((4, i))) = guarded(|| Instruction::decode(&b)) {arch_check(cx, &b, &i); push_cases(&mut cases, i, &mut cx.rng, &mut n32, false);}
 				}
 				flush(cx, &mut cases, dirs, false);
 			}
@@ -397,6 +445,7 @@ non-trivial = assembled case; distinct = distinct (text, address)".to_owned();
 		if let Ok(Ok((4, i))) = guarded(|| Instruction::decode(&b))
 		{
 			got += 1;
+			arch_check(cx, &b, &i);
 			push_cases(&mut cases, i, &mut cx.rng, &mut n32, false);
 			flush(cx, &mut cases, dirs, false);
 		}
